@@ -60,6 +60,7 @@ type Val struct {
 }
 
 type State struct {
+	sym     *symHeaps // non-nil: heaps are bound variables (definition of a recursive spec function)
 	cells   map[*cellKey]string
 	heaps   map[string]string
 	globals map[*ssa.Global]string
@@ -108,6 +109,7 @@ type Unit struct {
 	qn           int
 	topParams    map[string]Val
 	frameExtra   []specLoc
+	recDefs      map[string]*recDef
 	lockState    *State
 	frameSkip    map[string]bool
 	onReturn     func(f *Frame, st *State, vals []Val, k int, pos token.Pos)
@@ -183,7 +185,21 @@ func (u *Unit) valInvDeep(term string, ty types.Type, st *State) string {
 	return inv
 }
 
+type symHeaps struct {
+	names []string
+	tys   map[string]types.Type
+}
+
 func (u *Unit) heapGet(st *State, name string, t types.Type) string {
+	if st.sym != nil {
+		if _, ok := st.sym.tys[name]; !ok {
+			st.sym.tys[name] = t
+			st.sym.names = append(st.sym.names, name)
+			sort.Strings(st.sym.names)
+		}
+		u.heapTy[name] = t
+		return "hv_" + name
+	}
 	if v, ok := st.heaps[name]; ok {
 		return v
 	}
@@ -408,7 +424,7 @@ func (u *Unit) freshVal(hint string, ty types.Type, st *State) Val {
 		return Val{Tuple: vs, Ty: ty}
 	}
 	n := u.em.fresh(hint, u.em.sortOf(ty))
-	u.assume(st, u.valInv(n, ty, st))
+	u.assume(st, u.valInvDeep(n, ty, st))
 	return Val{T: n, Ty: ty}
 }
 
@@ -900,6 +916,11 @@ func (u *Unit) havocLoop(f *Frame, st *State, fn *ssa.Function, body map[int]boo
 	if !apply {
 		return sortedKeys(heaps)
 	}
+	if allocs {
+		n := u.em.fresh("alloc", "Int")
+		u.assume(st, fmt.Sprintf("(>= %s %s)", n, st.alloc))
+		st.alloc = n
+	}
 	var cl []*cellKey
 	for c := range cells {
 		cl = append(cl, c)
@@ -908,7 +929,7 @@ func (u *Unit) havocLoop(f *Frame, st *State, fn *ssa.Function, body map[int]boo
 	for _, c := range cl {
 		n := u.em.fresh(c.name, u.em.sortOf(c.ty))
 		st.cells[c] = n
-		u.assume(st, u.valInv(n, c.ty, st))
+		u.assume(st, u.valInvDeep(n, c.ty, st))
 	}
 	if allHeaps {
 		for k, t := range u.heapTy {
@@ -935,11 +956,6 @@ func (u *Unit) havocLoop(f *Frame, st *State, fn *ssa.Function, body map[int]boo
 	for g := range globals {
 		ty := g.Type().(*types.Pointer).Elem()
 		st.globals[g] = u.em.fresh("G_"+g.Name(), u.em.sortOf(ty))
-	}
-	if allocs {
-		n := u.em.fresh("alloc", "Int")
-		u.assume(st, fmt.Sprintf("(>= %s %s)", n, st.alloc))
-		st.alloc = n
 	}
 	return sortedKeys(heaps)
 }
